@@ -182,6 +182,14 @@ def rule_range(fx, rep, ex, arms):
             if good:
                 e = sb.expr(writes[0][2]["rv"].get("op"), expand_named=True)
                 good = bool(find_calls(e, "str::parse")) or bool(find_calls(e, "FromStr>::from_str"))
+                if not good:
+                    # parsed by a shared helper of the options module that is handed the value text
+                    for c in [x for x in walk(e) if isinstance(x, tuple) and x and x[0] == "call" and isinstance(x[1], str)]:
+                        hb = fx.body(c[1])
+                        if hb is not None and norm(hb.name).startswith("engine::uci::options::") and \
+                                any(norm(callee_name(t2) or "").endswith("str::parse") or norm(callee_name(t2) or "").endswith("FromStr>::from_str") for _, t2 in hb.calls()) and \
+                                any(isinstance(y, tuple) and len(y) >= 2 and y[0] == "arg" and y[1] == 2 for a in c[2] for y in walk(a)):
+                            good = True
         rep.obligation(good)
         if not good:
             bad(f"setter/{nm}", f"the setter of `{nm}` does not store the parsed value into exactly one EngineOptions field", sb)
